@@ -150,7 +150,7 @@ def check_from_matrix(ctx, chk):
                 chk.unknown("R05.2", "%s [%s]: %d return paths %s" % (AFM, inst, len(rets), rets and unmodelled_text(rets[0])))
                 continue
             mat, classes = rets[0].value.items
-            pcs = " & ".join(show(c, 80) for c, t in rets[0].pc)
+            pcs = " & ".join(c.key for c, t in rets[0].pc).replace("$", "")
             if kind == "dict":
                 keys = App("list", (App("m:keys", (mx,)),))
                 expk = K if kv is K else keys
@@ -164,7 +164,7 @@ def check_from_matrix(ctx, chk):
                 else:
                     derived = show(mat, 200)
                 keycheck = kv is not K or ("setof(classes)" in pcs and "m:keys(mat)" in pcs)
-                rowcheck = "m:keys(elem(" in pcs
+                rowcheck = "m:keys(elem(" in pcs or "m:keys(row" in pcs
                 if ok and same(classes, expk) and keycheck and rowcheck:
                     chk.hold("R05.2", inst, "entry[i][j] = mat[K_i][K_j], K = %s; key-set checks precede" % show(expk, 60))
                 else:
